@@ -163,6 +163,10 @@ StateFeatures(s) ==
   (IF \E p \in P, k \in Kinds, n \in N : n \in s.exported[p] /\ s.own[p][k][n] = Absent /\ Providers(s, p, k, n) # <<>>
    THEN {"bare-export-shadows-inherited"} ELSE {})
   \cup (IF \E p \in P : \E i \in 1..Len(s.uses[p]) : s.uses[s.uses[p][i]] # <<>> THEN {"use-chain"} ELSE {})
+  \* a package uses one package that exports the bare name and another one that exports a definition of it: the placeholder the
+  \* first hands to its users keeps the definition of the second out (finding C13-F10, the root of C13-F7 seen from a user)
+  \cup (IF \E p \in P, k \in Kinds, n \in N : s.own[p][k][n] = Absent /\ Providers(s, p, k, n) # <<>> /\ BareExporters(s, p, k, n) # {}
+        THEN {"bare-export-of-used-package-shadows-provider"} ELSE {})
 
 (***************************************************************************)
 (* Properties of the reference itself, checked by TLC in PackagesGen.      *)
